@@ -14,7 +14,7 @@ from ..prov import Prov, flatten, field_names
 from ..tygraph import TyGraph, fields_read_of_self, short
 from ..util import keyname, calls, last, fns_by_key, norm
 from ..cfg import Cfg
-from ..common import method
+from ..common import method, inst_of
 
 LEVEL = "proof"
 HASH = "core::hash::Hash"
@@ -316,10 +316,33 @@ def _calls_named(p, fn, suffix):
     return [(b, bi, t) for b, bi, t in calls(p, fn) if (t["f"].get("inst") or t["f"].get("def") or "").endswith(suffix)]
 
 
+HASH_SUFFIX = ["::hash_lint_context"]
+
+
+def _hash_fn(p, byk):
+    """the function that turns (lint, document) into the number the ignore list stores: by name, or - if it was renamed -
+    the one function of the ignored_lints module that both ignore_lint and is_ignored call and that returns u64"""
+    hfn = byk.get("IgnoredLints::hash_lint_context")
+    if hfn:
+        HASH_SUFFIX[0] = "::hash_lint_context"
+        return hfn
+    a, b = byk.get("IgnoredLints::ignore_lint"), byk.get("IgnoredLints::is_ignored")
+    if not a or not b:
+        return None
+    def callees(f):
+        return {inst_of(t) for _, t in f.calls() if norm(inst_of(t)).startswith("harper_core::ignored_lints::")}
+    bynorm = {norm(n): f for n, f in p.fns.items()}
+    common = [n for n in {norm(x) for x in callees(a[0])} & {norm(x) for x in callees(b[0])} if n in bynorm and bynorm[n].local_tystr(0) == "u64"]
+    if len(common) == 1:
+        HASH_SUFFIX[0] = "::" + last(common[0])
+        return [bynorm[common[0]]]
+    return None
+
+
 def _agree(ck, p):
     rule = "R-C14-agree"
     byk = fns_by_key(p)
-    hfn = byk.get("IgnoredLints::hash_lint_context")
+    hfn = _hash_fn(p, byk)
     if not ck.anchor(rule, "IgnoredLints::hash_lint_context", hfn):
         return
     sorted_form = []
@@ -329,7 +352,7 @@ def _agree(ck, p):
             continue
         f = fs[0]
         ck.saw(f)
-        cs = _calls_named(p, f, "::hash_lint_context")
+        cs = _calls_named(p, f, HASH_SUFFIX[0])
         pv = Prov(f)
         ok = len(cs) == 1
         detail = "calls hash_lint_context %d time(s)" % len(cs)
@@ -355,7 +378,7 @@ def _agree(ck, p):
                 t2 = setops[0][2]
                 want = "insert" if name == "ignore_lint" else "contains"
                 leaves = flatten(pv.trace_operand(t2["args"][1]))
-                from_hash = any(o[0] == "call" and (o[3] or "").endswith("::hash_lint_context") for o in leaves)
+                from_hash = any(o[0] == "call" and (o[3] or "").endswith(HASH_SUFFIX[0]) for o in leaves)
                 on_field = "context_hashes" in (field_names(pv.trace_operand(t2["args"][0])) | set(e[2] for e in (t2["args"][0].get("c") or t2["args"][0].get("m") or [])[1:] if isinstance(e, list)))
                 opname = (t2["f"].get("inst") or "").rsplit("::", 1)[-1]
                 ok = ok and from_hash and opname == want
@@ -444,7 +467,7 @@ def _wasm_io(ck, p):
 def _stable(ck, p):
     rule = "R-C14-stable"
     byk = fns_by_key(p)
-    fs = byk.get("IgnoredLints::hash_lint_context")
+    fs = _hash_fn(p, byk)
     if not ck.anchor(rule, "IgnoredLints::hash_lint_context", fs):
         return
     f = fs[0]
@@ -502,14 +525,14 @@ def _sorted_vec_form(p, f, pv, name):
     if len(bs) != 1:
         return "no single binary_search on context_hashes"
     leaves = flatten(pv.trace_operand(bs[0][1]["args"][1]))
-    if not any(o[0] == "call" and (o[3] or "").endswith("::hash_lint_context") for o in leaves):
+    if not any(o[0] == "call" and (o[3] or "").endswith(HASH_SUFFIX[0]) for o in leaves):
         return "the searched value is not the context hash"
     if name == "ignore_lint":
         ins = [(bi, t) for bi, t in f.calls() if method(t) == "insert" and _on_hashes(pv, t["args"][0])]
         if len(ins) != 1:
             return "expected one insert on context_hashes"
         idx_from = any(o[0] == "call" and o[1] == bs[0][0] for o in flatten(pv.trace_operand(ins[0][1]["args"][1])))
-        val = any(o[0] == "call" and (o[3] or "").endswith("::hash_lint_context") for o in flatten(pv.trace_operand(ins[0][1]["args"][2])))
+        val = any(o[0] == "call" and (o[3] or "").endswith(HASH_SUFFIX[0]) for o in flatten(pv.trace_operand(ins[0][1]["args"][2])))
         if not (idx_from and val):
             return "insert position is not the one binary_search reported, or the value is not the hash"
     return True
